@@ -74,11 +74,11 @@ type Spec struct {
 var Specs = map[string]func(tier string) []*Spec{}
 
 type succ struct {
-	Ev     Ev     `json:"e"`
-	Key    string `json:"k"`
-	Fails  []Fail `json:"f,omitempty"`
-	NonTr  bool   `json:"n,omitempty"`
-	Sits   []string `json:"s,omitempty"`
+	Ev    Ev       `json:"e"`
+	Key   string   `json:"k"`
+	Fails []Fail   `json:"f,omitempty"`
+	NonTr bool     `json:"n,omitempty"`
+	Sits  []string `json:"s,omitempty"`
 }
 
 type expandParams struct {
